@@ -591,13 +591,27 @@ func c12Case(c *core.Ctx, idx int) {
 		nv = 30
 	}
 	recycled, recycledDef := reflect.New(typ), reflect.New(typ)
+	var prevData []byte
 	for j := 0; j < nv; j++ {
 		v := (&gen.VG{R: rv, C: protoCfg, Budget: 150, NoSNaN: true}).Value(typ, "")
+		if j > 0 && len(prevData) > 1 {
+			// damaged proto-mode messages in between, on the instances the next ones are read by:
+			// whatever they return, they leave nothing behind
+			for k := 0; k < 2; k++ {
+				bad := damage(rv, prevData)
+				for _, q := range []*plenc.Plenc{p, longProto, four[0].p} {
+					junk := reflect.New(typ)
+					unmarshal(q, bad, junk.Interface())
+				}
+			}
+			rec.Count("damaged_messages_between_values", 2)
+		}
 		data, err, pn := marshal(p, nil, ptrTo(v))
 		if err != nil || pn != "" {
 			rec.Violation("marshal-error", fmt.Sprintf("%v %s", err, pn), caseExtra(tc, v, nil))
 			return
 		}
+		prevData = data
 		rec.Eval(1)
 		noteShape(c, tc, v)
 		desc := func() string {
